@@ -142,171 +142,205 @@ func monC15(c *drv.Ctx) {
 		c15Raw(cs, lens, bin, []int{0, 0, 1, 7, 4096}[r.Intn(5)], r.Intn(5) == 0)
 		cs.Count(large >= 1, "rawr", lens, bin)
 	})
-	// (1b) ApplicationException through FastWriteNocopy / FastWrite, inside a larger buffer
-	c.Stage("exception", c.Pick(4000, 60000), false, func(cs *drv.Case) {
-		r := cs.R
-		msg := string(gen.Bytes(r, c15Lens[r.Intn(len(c15Lens))]))
-		tid := gen.I32(r)
-		e := thrift.NewApplicationException(tid, msg)
-		want := append(ref.EncString(ref.EncFieldBegin(nil, ref.STRING, 1), msg), ref.EncI32(ref.EncFieldBegin(nil, ref.I32, 2), tid)...)
-		want = append(want, 0)
-		bl := e.BLength()
-		pre, post := []int{0, 5}[r.Intn(2)], []int{0, 1, 64, 5000}[r.Intn(4)]
-		whole := window(pre+bl+post, []int{0, 1, 100}[r.Intn(3)])
-		for k := range whole {
-			whole[k] = 0xB7
+	// (1a) values far above the threshold (whatever piece size an implementation prefers, the spliced stream is
+	// the same): 1 MiB and more, alone and next to small and threshold-sized neighbours
+	hugeLens := []int{1 << 20, 1<<20 + 1, 2<<20 + 5, 3 << 20}
+	c.Stage("raw-huge", int64(len(hugeLens)*3), true, func(cs *drv.Case) {
+		h := hugeLens[cs.Idx%int64(len(hugeLens))]
+		var lens []int
+		switch cs.Idx / int64(len(hugeLens)) {
+		case 0:
+			lens = []int{h}
+		case 1:
+			lens = []int{5, h, 4096}
+		default:
+			lens = []int{h, 100, h / 2}
 		}
-		dwr := &doubles.DirectWriter{}
-		off := e.FastWriteNocopy(whole[pre:], dwr)
-		got, ok := dwr.Splice(whole[pre:], off)
-		sum := off
-		for _, p := range dwr.Pieces {
-			sum += len(p)
+		bin := make([]bool, len(lens))
+		for i := range bin {
+			bin[i] = (int(cs.Idx)+i)%2 == 0
 		}
-		cs.Desc = M{"msg_len": len(msg), "blength": bl, "bytes_before": pre, "bytes_after": post, "returned_offset": off, "pieces": len(dwr.Pieces), "remains": fmt.Sprint(dwr.Remains)}
-		if bl != len(want) || sum != bl || !ok || !bytes.Equal(got, want) {
-			cs.Fail("nocopy-stream-differs", M{"struct": "ApplicationException"}, M{"message": fmt.Sprintf("BLength %d, reference %d, offset+pieces %d, splice ok %v, stream equal %v", bl, len(want), sum, ok, ok && bytes.Equal(got, want))})
-			return
-		}
-		for k := pre + bl; k < len(whole); k++ {
-			if whole[k] != 0xB7 {
-				cs.Fail("nocopy-wrote-outside", M{"struct": "ApplicationException"}, M{"message": "bytes after the advertised length were modified"})
-				return
-			}
-		}
-		b2 := make([]byte, bl)
-		if n := e.FastWrite(b2); n != bl || !bytes.Equal(b2, want) {
-			cs.Fail("nocopy-nil-writer-differs", M{"struct": "ApplicationException"}, M{"message": "FastWrite differs from the reference encoding"})
-		}
-		cs.Count(len(msg) >= 4096, "exc", len(msg), pre, post)
-		cs.C.Obs("struct cases", 1)
+		c15Raw(cs, lens, bin, []int{0, 1, 64}[cs.Idx%3], false)
+		c15Raw(cs, lens, bin, 0, true)
+		cs.Count(true, "huge", lens)
+		cs.C.Obs("sequences with a value of 1 MiB or more", 1)
 	})
+	// (1b) ApplicationException through FastWriteNocopy / FastWrite, inside a larger buffer
+	c.Stage("exception", c.Pick(4000, 60000), false, c15ExceptionCase)
 
 	// (2) Base / BaseResp through FastWriteNocopy with a recording direct writer
-	c.Stage("structs", c.Pick(50000, 600000), false, func(cs *drv.Case) {
-		r := cs.R
-		fl := func() string {
-			if r.Intn(2) == 0 {
-				return string(gen.Bytes(r, r.Intn(30)))
-			}
-			return string(gen.Bytes(r, c15Lens[3+r.Intn(len(c15Lens)-3)]))
+	c.Stage("structs", c.Pick(50000, 600000), false, c15StructCase)
+}
+
+// c15ExceptionCase: one ApplicationException through FastWriteNocopy with a recording direct writer (also run by C11,
+// whose length clause covers that writer as well).
+func c15ExceptionCase(cs *drv.Case) {
+	r := cs.R
+	msg := string(gen.Bytes(r, c15Lens[r.Intn(len(c15Lens))]))
+	tid := gen.I32(r)
+	e := thrift.NewApplicationException(tid, msg)
+	want := append(ref.EncString(ref.EncFieldBegin(nil, ref.STRING, 1), msg), ref.EncI32(ref.EncFieldBegin(nil, ref.I32, 2), tid)...)
+	want = append(want, 0)
+	bl := e.BLength()
+	pre, post := []int{0, 5}[r.Intn(2)], []int{0, 1, 64, 5000}[r.Intn(4)]
+	whole := window(pre+bl+post, []int{0, 1, 100}[r.Intn(3)])
+	for k := range whole {
+		whole[k] = 0xB7
+	}
+	dwr := &doubles.DirectWriter{}
+	off := e.FastWriteNocopy(whole[pre:], dwr)
+	got, ok := dwr.Splice(whole[pre:], off)
+	sum := off
+	for _, p := range dwr.Pieces {
+		sum += len(p)
+	}
+	cs.Desc = M{"msg_len": len(msg), "blength": bl, "bytes_before": pre, "bytes_after": post, "returned_offset": off, "pieces": len(dwr.Pieces), "remains": fmt.Sprint(dwr.Remains)}
+	if bl != len(want) || sum != bl || !ok || !bytes.Equal(got, want) {
+		cs.Fail("nocopy-stream-differs", M{"struct": "ApplicationException"}, M{"message": fmt.Sprintf("BLength %d, reference %d, offset+pieces %d, splice ok %v, stream equal %v", bl, len(want), sum, ok, ok && bytes.Equal(got, want))})
+		return
+	}
+	for k := pre + bl; k < len(whole); k++ {
+		if whole[k] != 0xB7 {
+			cs.Fail("nocopy-wrote-outside", M{"struct": "ApplicationException"}, M{"message": "bytes after the advertised length were modified"})
+			return
 		}
-		var extra map[string]string
-		switch r.Intn(4) {
-		case 1:
-			extra = map[string]string{}
+	}
+	b2 := make([]byte, bl)
+	if n := e.FastWrite(b2); n != bl || !bytes.Equal(b2, want) {
+		cs.Fail("nocopy-nil-writer-differs", M{"struct": "ApplicationException"}, M{"message": "FastWrite differs from the reference encoding"})
+	}
+	cs.Count(len(msg) >= 4096, "exc", len(msg), pre, post)
+	cs.C.Obs("struct cases", 1)
+}
+
+// c15StructCase: one Base / BaseResp through FastWriteNocopy with a recording direct writer (also run by C11).
+func c15StructCase(cs *drv.Case) {
+	r := cs.R
+	fl := func() string {
+		switch r.Intn(5) {
+		case 0, 1:
+			return string(gen.Bytes(r, r.Intn(30)))
 		case 2:
-			extra = map[string]string{fl(): fl()}
-		case 3:
-			extra = map[string]string{}
-			for i := 0; i < 2+r.Intn(3); i++ {
-				extra[fl()+fmt.Sprint(i)] = fl()
-			}
+			// below the threshold on its own, above it together with its neighbour (a map key and its value)
+			return string(gen.Bytes(r, []int{1500, 2047, 2048, 2049, 2500, 3000, 4000}[r.Intn(7)]))
 		}
-		spare := []int{0, 1, 100}[r.Intn(3)]
-		isBase := r.Intn(2) == 0
-		var codec thrift.FastCodec
-		var want []byte
+		return string(gen.Bytes(r, c15Lens[3+r.Intn(len(c15Lens)-3)]))
+	}
+	var extra map[string]string
+	switch r.Intn(4) {
+	case 1:
+		extra = map[string]string{}
+	case 2:
+		extra = map[string]string{fl(): fl()}
+	case 3:
+		extra = map[string]string{}
+		for i := 0; i < 2+r.Intn(3); i++ {
+			extra[fl()+fmt.Sprint(i)] = fl()
+		}
+	}
+	spare := []int{0, 1, 100}[r.Intn(3)]
+	isBase := r.Intn(2) == 0
+	var codec thrift.FastCodec
+	var want []byte
+	if isBase {
+		p := &base.Base{LogID: fl(), Caller: fl(), Addr: fl(), Extra: extra}
+		codec = p
+		known := []kfield{{1, ref.STRING, ref.EncString(nil, p.LogID)}, {2, ref.STRING, ref.EncString(nil, p.Caller)}, {3, ref.STRING, ref.EncString(nil, p.Addr)}}
+		if extra != nil {
+			known = append(known, kfield{6, ref.MAP, encStrMap(extra)})
+		}
+		want, _ = buildStruct(r, known, 0, false)
+	} else {
+		p := &base.BaseResp{StatusMessage: fl(), StatusCode: gen.I32(r), Extra: extra}
+		codec = p
+		known := []kfield{{1, ref.STRING, ref.EncString(nil, p.StatusMessage)}, {2, ref.I32, ref.EncI32(nil, p.StatusCode)}}
+		if extra != nil {
+			known = append(known, kfield{3, ref.MAP, encStrMap(extra)})
+		}
+		want, _ = buildStruct(r, known, 0, false)
+	}
+	bl := codec.BLength()
+	if bl != len(want) {
+		cs.Fail("nocopy-length-accounting", M{"struct": isBase}, M{"message": fmt.Sprintf("BLength %d, reference encoding %d", bl, len(want))})
+		return
+	}
+	// the copying path itself (maps with <= 1 entry have one encoding)
+	cp := make([]byte, bl+8)
+	if n := codec.(interface{ FastWrite([]byte) int }).FastWrite(cp); n != bl || (len(extra) <= 1 && !bytes.Equal(cp[:n], want)) {
+		cs.Fail("copying-path-differs", M{"struct": isBase}, M{"message": fmt.Sprintf("FastWrite wrote %d bytes, BLength / no-copy length %d (empty non-nil map: %v)", n, bl, extra != nil && len(extra) == 0)})
+		return
+	}
+	// the struct is a (possibly non-final) part of a larger buffer: pre bytes before, post bytes after
+	pre, post := []int{0, 3, 100}[r.Intn(3)], []int{0, 0, 1, 50, 5000}[r.Intn(5)]
+	whole := window(pre+bl+post, spare)
+	for k := range whole {
+		whole[k] = 0xB7
+	}
+	buf := whole[pre:]
+	dwr := &doubles.DirectWriter{}
+	off := codec.FastWriteNocopy(buf, dwr)
+	sum := off
+	for _, p := range dwr.Pieces {
+		sum += len(p)
+	}
+	cs.Desc = M{"is_base": isBase, "blength": bl, "spare_cap": spare, "bytes_before": pre, "bytes_after": post, "extra_entries": len(extra), "returned_offset": off, "pieces": len(dwr.Pieces), "remains": fmt.Sprint(dwr.Remains)}
+	if sum != bl {
+		cs.Fail("nocopy-length-accounting", M{"struct": isBase}, M{"message": fmt.Sprintf("returned offset %d + pieces = %d, BLength %d", off, sum, bl)})
+		return
+	}
+	for k := 0; k < pre; k++ {
+		if whole[k] != 0xB7 {
+			cs.Fail("nocopy-wrote-outside", M{"struct": isBase}, M{"message": "bytes before the struct's buffer were modified"})
+			return
+		}
+	}
+	for k := pre + bl; k < len(whole); k++ {
+		if whole[k] != 0xB7 {
+			cs.Fail("nocopy-wrote-outside", M{"struct": isBase}, M{"message": fmt.Sprintf("byte %d after the struct's %d advertised bytes was modified", k-pre-bl, bl)})
+			return
+		}
+	}
+	got, ok := dwr.Splice(buf, off)
+	if !ok {
+		cs.Fail("nocopy-splice-position", M{"struct": isBase}, M{"message": "indicated splice positions are inconsistent"})
+		return
+	}
+	if len(extra) <= 1 {
+		if !bytes.Equal(got, want) {
+			cs.Fail("nocopy-stream-differs", M{"struct": isBase}, M{"message": fmt.Sprintf("spliced stream differs from the reference encoding at %d", firstDiff(got, want))})
+			return
+		}
+	} else {
+		// several map entries: compare through decoding
 		if isBase {
-			p := &base.Base{LogID: fl(), Caller: fl(), Addr: fl(), Extra: extra}
-			codec = p
-			known := []kfield{{1, ref.STRING, ref.EncString(nil, p.LogID)}, {2, ref.STRING, ref.EncString(nil, p.Caller)}, {3, ref.STRING, ref.EncString(nil, p.Addr)}}
-			if extra != nil {
-				known = append(known, kfield{6, ref.MAP, encStrMap(extra)})
-			}
-			want, _ = buildStruct(r, known, 0, false)
-		} else {
-			p := &base.BaseResp{StatusMessage: fl(), StatusCode: gen.I32(r), Extra: extra}
-			codec = p
-			known := []kfield{{1, ref.STRING, ref.EncString(nil, p.StatusMessage)}, {2, ref.I32, ref.EncI32(nil, p.StatusCode)}}
-			if extra != nil {
-				known = append(known, kfield{3, ref.MAP, encStrMap(extra)})
-			}
-			want, _ = buildStruct(r, known, 0, false)
-		}
-		bl := codec.BLength()
-		if bl != len(want) {
-			cs.Fail("nocopy-length-accounting", M{"struct": isBase}, M{"message": fmt.Sprintf("BLength %d, reference encoding %d", bl, len(want))})
-			return
-		}
-		// the copying path itself (maps with <= 1 entry have one encoding)
-		cp := make([]byte, bl+8)
-		if n := codec.(interface{ FastWrite([]byte) int }).FastWrite(cp); n != bl || (len(extra) <= 1 && !bytes.Equal(cp[:n], want)) {
-			cs.Fail("copying-path-differs", M{"struct": isBase}, M{"message": fmt.Sprintf("FastWrite wrote %d bytes, BLength / no-copy length %d (empty non-nil map: %v)", n, bl, extra != nil && len(extra) == 0)})
-			return
-		}
-		// the struct is a (possibly non-final) part of a larger buffer: pre bytes before, post bytes after
-		pre, post := []int{0, 3, 100}[r.Intn(3)], []int{0, 0, 1, 50, 5000}[r.Intn(5)]
-		whole := window(pre+bl+post, spare)
-		for k := range whole {
-			whole[k] = 0xB7
-		}
-		buf := whole[pre:]
-		dwr := &doubles.DirectWriter{}
-		off := codec.FastWriteNocopy(buf, dwr)
-		sum := off
-		for _, p := range dwr.Pieces {
-			sum += len(p)
-		}
-		cs.Desc = M{"is_base": isBase, "blength": bl, "spare_cap": spare, "bytes_before": pre, "bytes_after": post, "extra_entries": len(extra), "returned_offset": off, "pieces": len(dwr.Pieces), "remains": fmt.Sprint(dwr.Remains)}
-		if sum != bl {
-			cs.Fail("nocopy-length-accounting", M{"struct": isBase}, M{"message": fmt.Sprintf("returned offset %d + pieces = %d, BLength %d", off, sum, bl)})
-			return
-		}
-		for k := 0; k < pre; k++ {
-			if whole[k] != 0xB7 {
-				cs.Fail("nocopy-wrote-outside", M{"struct": isBase}, M{"message": "bytes before the struct's buffer were modified"})
-				return
-			}
-		}
-		for k := pre + bl; k < len(whole); k++ {
-			if whole[k] != 0xB7 {
-				cs.Fail("nocopy-wrote-outside", M{"struct": isBase}, M{"message": fmt.Sprintf("byte %d after the struct's %d advertised bytes was modified", k-pre-bl, bl)})
-				return
-			}
-		}
-		got, ok := dwr.Splice(buf, off)
-		if !ok {
-			cs.Fail("nocopy-splice-position", M{"struct": isBase}, M{"message": "indicated splice positions are inconsistent"})
-			return
-		}
-		if len(extra) <= 1 {
-			if !bytes.Equal(got, want) {
-				cs.Fail("nocopy-stream-differs", M{"struct": isBase}, M{"message": fmt.Sprintf("spliced stream differs from the reference encoding at %d", firstDiff(got, want))})
+			q := base.NewBase()
+			n, err := q.FastRead(got)
+			o := codec.(*base.Base)
+			if err != nil || n != bl || q.LogID != o.LogID || q.Caller != o.Caller || q.Addr != o.Addr || !strMapEq(q.Extra, o.Extra) {
+				cs.Fail("nocopy-stream-differs", M{"struct": isBase}, M{"message": fmt.Sprintf("spliced stream does not decode to the value (n=%d err=%v)", n, err)})
 				return
 			}
 		} else {
-			// several map entries: compare through decoding
-			if isBase {
-				q := base.NewBase()
-				n, err := q.FastRead(got)
-				o := codec.(*base.Base)
-				if err != nil || n != bl || q.LogID != o.LogID || q.Caller != o.Caller || q.Addr != o.Addr || !strMapEq(q.Extra, o.Extra) {
-					cs.Fail("nocopy-stream-differs", M{"struct": isBase}, M{"message": fmt.Sprintf("spliced stream does not decode to the value (n=%d err=%v)", n, err)})
-					return
-				}
-			} else {
-				q := base.NewBaseResp()
-				n, err := q.FastRead(got)
-				o := codec.(*base.BaseResp)
-				if err != nil || n != bl || q.StatusMessage != o.StatusMessage || q.StatusCode != o.StatusCode || !strMapEq(q.Extra, o.Extra) {
-					cs.Fail("nocopy-stream-differs", M{"struct": isBase}, M{"message": fmt.Sprintf("spliced stream does not decode to the value (n=%d err=%v)", n, err)})
-					return
-				}
+			q := base.NewBaseResp()
+			n, err := q.FastRead(got)
+			o := codec.(*base.BaseResp)
+			if err != nil || n != bl || q.StatusMessage != o.StatusMessage || q.StatusCode != o.StatusCode || !strMapEq(q.Extra, o.Extra) {
+				cs.Fail("nocopy-stream-differs", M{"struct": isBase}, M{"message": fmt.Sprintf("spliced stream does not decode to the value (n=%d err=%v)", n, err)})
+				return
 			}
 		}
-		// nil writer: byte-identical to the copying path
-		buf2 := window(bl, spare)
-		if n := codec.FastWriteNocopy(buf2, nil); n != bl || (len(extra) <= 1 && !bytes.Equal(buf2, want)) {
-			cs.Fail("nocopy-nil-writer-differs", M{"struct": isBase}, M{"message": fmt.Sprintf("FastWriteNocopy(nil) returned %d, BLength %d; bytes equal: %v", n, bl, bytes.Equal(buf2, want))})
-			return
-		}
-		if m := thrift.FastMarshal(codec); len(m) != bl || (len(extra) <= 1 && !bytes.Equal(m, want)) {
-			cs.Fail("nocopy-nil-writer-differs", M{"struct": isBase, "via": "FastMarshal"}, M{"message": "FastMarshal output differs from the reference encoding"})
-			return
-		}
-		cs.Count(len(dwr.Pieces) >= 1, "struct", isBase, fmt.Sprint(codec), spare)
-		cs.C.Obs("direct pieces spliced", int64(len(dwr.Pieces)))
-		cs.C.Obs("struct cases", 1)
-	})
+	}
+	// nil writer: byte-identical to the copying path
+	buf2 := window(bl, spare)
+	if n := codec.FastWriteNocopy(buf2, nil); n != bl || (len(extra) <= 1 && !bytes.Equal(buf2, want)) {
+		cs.Fail("nocopy-nil-writer-differs", M{"struct": isBase}, M{"message": fmt.Sprintf("FastWriteNocopy(nil) returned %d, BLength %d; bytes equal: %v", n, bl, bytes.Equal(buf2, want))})
+		return
+	}
+	if m := thrift.FastMarshal(codec); len(m) != bl || (len(extra) <= 1 && !bytes.Equal(m, want)) {
+		cs.Fail("nocopy-nil-writer-differs", M{"struct": isBase, "via": "FastMarshal"}, M{"message": "FastMarshal output differs from the reference encoding"})
+		return
+	}
+	cs.Count(len(dwr.Pieces) >= 1, "struct", isBase, fmt.Sprint(codec), spare)
+	cs.C.Obs("direct pieces spliced", int64(len(dwr.Pieces)))
+	cs.C.Obs("struct cases", 1)
 }
